@@ -508,8 +508,6 @@ Proof.
 Qed.
 End SOUND.
 
-Print Assumptions parse_mapscripts_sound.
-Print Assumptions inline_body_is_script_body.
 
 (* ================= Theorem B: every statement of the grammar is parsed to the AST of its tree ================= *)
 Section COMPLETE.
@@ -693,7 +691,6 @@ Proof.
 Qed.
 End COMPLETE.
 
-Print Assumptions parse_mapscripts_complete.
 
 (* ================= nothing dropped, duplicated or reordered ================= *)
 Section COUNT.
@@ -724,11 +721,6 @@ Proof.
     unfold plain_of, tables_of in *; cbn [flat_map]; rewrite ?app_length; cbn [List.length app]; lia.
 Qed.
 End COUNT.
-Print Assumptions rows_ast_nth.
-Print Assumptions rows_ast_length.
-Print Assumptions entry_count.
-Print Assumptions plain_of_app.
-Print Assumptions tables_of_app.
 
 (* ================= the names of the inline scripts ================= *)
 Fixpoint ntgo (fuel : nat) (n : N) (acc : text) : text :=
@@ -807,12 +799,6 @@ Proof.
   intros B. apply G. exact B.
 Qed.
 End NAMES.
-Print Assumptions nat_text_inj.
-Print Assumptions row_names_distinct.
-Print Assumptions plain_names_distinct.
-Print Assumptions inline_row_name.
-Print Assumptions label_row_name.
-Print Assumptions table_inline_names_nodup.
 
 (* ================= Theorem C: from the tokens to the printed lines ================= *)
 Section LINES.
@@ -900,7 +886,6 @@ Theorem tree_lines name g es :
                   ++ [ILine (tab ++ t ".byte 0"); IBlank] ++ inl ++ tt))).
 Proof. rewrite mapscripts_shape, table_blocks_ast, plain_scripts_ast, plain_lines_ast, table_lines_ast. reflexivity. Qed.
 End LINES.
-Print Assumptions tree_lines.
 
 Section TOKENS_TO_LINES.
 Variable autovars : list (text * autovar).
@@ -987,8 +972,6 @@ Proof.
   exists g, name, es, rb, rest, imp, h', ps. split; [exact SRC|]. split; [exact IM|]. split; [exact AI|exact H].
 Qed.
 End TOKENS_TO_LINES.
-Print Assumptions mapscripts_tokens_to_lines.
-Print Assumptions parse_tops_mapscripts.
 
 (* Theorem B and C together: every statement of the grammar compiles to the lines of its tree *)
 Section STATEMENT_TO_LINES.
@@ -1020,7 +1003,6 @@ Proof.
   exists (plain_of name es), (tables_of consts name es), imp. split; [exact E|apply tree_lines].
 Qed.
 End STATEMENT_TO_LINES.
-Print Assumptions statement_to_lines.
 
 (* ================= with the model's format() operator and lexer: no premise left but the parser's success ================= *)
 Section REAL.
@@ -1067,9 +1049,6 @@ Theorem parse_tops_mapscripts_real f st ts st' :
                   ptexts := ptexts st |} rest = Ok st'.
 Proof. apply parse_tops_mapscripts. apply ProgSrc.parse_format_advs. Qed.
 End REAL.
-Print Assumptions parse_mapscripts_sound_real.
-Print Assumptions mapscripts_source_to_lines.
-Print Assumptions parse_tops_mapscripts_real.
 
 (* ================= the premises are satisfiable: concrete statements ================= *)
 Section EXAMPLES.
